@@ -6,9 +6,9 @@ CONSTANTS
   Cap = 0
   MaxFs = 3
   MaxQ = 2
-  FIX_ERR = FALSE
+  FIX_ERR = TRUE
   FIX_RACE = TRUE
-  FIX_RDCLOSED = TRUE
+  FIX_RDCLOSED = FALSE
 VIEW View
 INVARIANTS NoWaitOnConsumer CloseProtocol ResultsOK ErrsGenuine Released LockSane
 CHECK_DEADLOCK FALSE
